@@ -331,3 +331,118 @@ Proof.
     change (no_var_head ((rest ++ binop_tok o :: parens (paren_rhs (iprec (IBin o l r)) (iprec r) (imand r) (iassoc (IBin o l r))) (print_iterm false r)) ++ X)).
     rewrite <- app_assoc. exact N1.
 Qed.
+
+Lemma ihead_cases t : plain_tok (ihead_tok t) \/ exists c, ihead_tok t = TFun c SInteger.
+Proof.
+  induction t as [z|c|y|[] a IH|o l IHl r IHr]; cbn [ihead_tok].
+  - left. unfold num_tok. destruct (z <? 0)%Z; exact I.
+  - right. eexists; reflexivity.
+  - left. exact I.
+  - left. exact I.
+  - destruct (paren_lhs _ _ _ _); [left; exact I|exact IHl].
+Qed.
+
+Lemma ihead_tok_ok t : ihead (ihead_tok t).
+Proof.
+  destruct (print_iterm_head t) as (tok & rest & E & H). destruct (print_iterm_hd false t) as [r E2].
+  rewrite E2 in E. injection E as -> _. exact H.
+Qed.
+
+Lemma guards_head gs R : gs <> [] -> exists rl rest, print_guards false gs ++ R = TRel rl :: rest.
+Proof. destruct gs as [|[rl t] gs]; [congruence|]. intros _. cbn. eexists _, _; reflexivity. Qed.
+
+Lemma atomic_no_prefix a R : kwi_atomic a = false -> (match a with ACmp _ [] => False | _ => True end) -> no_var_head R ->
+  peg_prefix (print_atomic false a ++ R) = None.
+Proof.
+  intros K Hne HR. destruct a as [| |p ts|t gs].
+  - reflexivity.
+  - reflexivity.
+  - assert (Kp : kw_prefixed p = false) by (destruct ts; exact K).
+    destruct ts as [|t ts]; cbn [print_atomic print_atom app]; apply peg_prefix_word; split; auto; exact I.
+  - destruct gs as [|g gs]; [tauto|]. cbn [print_atomic]. rewrite <- app_assoc.
+    destruct (guards_head (g :: gs) R) as (rl & rest & EG); [discriminate|]. rewrite EG.
+    unfold kwi_atomic in K. cbn [print_atomic] in K.
+    destruct t as [| |c|x|it|[s|c|x]]; cbn [print_gterm print_sterm app] in *; try reflexivity.
+    + apply peg_prefix_fun. split; [exact K|exact I].
+    + destruct (ihead_cases it) as [HP|[c HC]].
+      * destruct (print_iterm_hd false it) as [r E]. rewrite E. cbn [app]. apply peg_prefix_plain. exact HP.
+      * destruct (print_iterm_second it c (TRel rl :: rest) HC I) as (r & E & N). rewrite E in *. cbn [app] in *.
+        apply peg_prefix_fun. split; [exact K|exact N].
+    + apply peg_prefix_word. split; [exact K|exact I].
+    + apply peg_prefix_fun. split; [exact K|exact I].
+Qed.
+
+(* ---------- a comparison that begins with "(" : the alternative "(" formula ")" of primary fails ---------- *)
+Fixpoint lead_paren (t : iterm) : option (iterm * list token) :=
+  match t with
+  | IBin o l r =>
+      let tail := binop_tok o :: parens (paren_rhs (iprec t) (iprec r) (imand r) (iassoc t)) (print_iterm false r) in
+      if paren_lhs (iprec t) (iprec l) (imand l) (iassoc l) then Some (l, tail)
+      else match lead_paren l with Some (l0, rem) => Some (l0, rem ++ tail) | None => None end
+  | _ => None
+  end.
+
+Lemma parens_app (a b : list token) : (TLParen :: a ++ [TRParen]) ++ b = TLParen :: a ++ TRParen :: b.
+Proof. cbn [app]. rewrite <- app_assoc. reflexivity. Qed.
+
+Lemma lead_paren_some t l0 rem : lead_paren t = Some (l0, rem) ->
+  print_iterm false t = TLParen :: print_iterm false l0 ++ TRParen :: rem /\ isize l0 < isize t.
+Proof.
+  revert l0 rem. induction t as [z|c|y|[] a IH|o l IHl r IHr]; cbn [lead_paren]; try discriminate.
+  intros l0 rem. cbn [print_iterm tsp app isize]. unfold parens at 1.
+  destruct (paren_lhs (iprec (IBin o l r)) (iprec l) (imand l) (iassoc l)).
+  - intros [= <- <-]. split; [|lia]. apply parens_app.
+  - destruct (lead_paren l) as [[l1 rem1]|]; [|discriminate]. intros [= <- <-].
+    destruct (IHl l1 rem1 eq_refl) as [E L]. split; [|lia]. rewrite E.
+    unfold parens at 1. cbn [app]. rewrite <- app_assoc. reflexivity.
+Qed.
+
+Lemma lead_paren_none t : lead_paren t = None -> ihead_tok t <> TLParen.
+Proof.
+  induction t as [z|c|y|[] a IH|o l IHl r IHr]; cbn [lead_paren ihead_tok]; try discriminate.
+  - intros _. unfold num_tok. destruct (z <? 0)%Z; discriminate.
+  - destruct (paren_lhs _ _ _ _); [discriminate|]. destruct (lead_paren l) as [[? ?]|]; [discriminate|]. intros _. apply IHl. reflexivity.
+Qed.
+
+Lemma lead_ident_app_tok tok rest X : lead_ident ((tok :: rest) ++ X) = lead_ident (tok :: rest ++ X).
+Proof. reflexivity. Qed.
+
+(* formula fails on the contents of a parenthesised integer term *)
+Lemma formula_fails_on_iterm : forall n t X, isize t + 2 < n -> lead_safe (print_iterm false t ++ TRParen :: X) ->
+  peg_formula n (print_iterm false t ++ TRParen :: X) = Fail.
+Proof.
+  induction n as [|f IH]; intros t X Hn HS; [lia|].
+  set (ts := print_iterm false t ++ TRParen :: X) in *.
+  (* no prefix *)
+  assert (P0 : peg_prefix ts = None).
+  { subst ts. destruct (ihead_cases t) as [HP|[c HC]].
+    - destruct (print_iterm_hd false t) as [r E]. rewrite E. apply peg_prefix_plain. exact HP.
+    - destruct (print_iterm_second t c (TRParen :: X) HC I) as (r & E & N). rewrite E in *. cbn [app] in *.
+      apply peg_prefix_fun. split; [exact HS|exact N]. }
+  (* the atomic alternative fails: an integer term followed by ")" is neither a comparison nor an atom *)
+  assert (A0 : f_atomic f ts = Fail).
+  { unfold f_atomic, peg_atomic. subst ts.
+    assert (EC : peg_comparison f (print_iterm false t ++ TRParen :: X) = Fail).
+    { unfold peg_comparison.
+      assert (G : peg_gterm f (print_gterm false (GInt t) ++ TRParen :: X) = Ok (GInt t) (TRParen :: X))
+        by (apply gterm_rt; [cbn; lia|reflexivity]).
+      cbn [print_gterm] in G. rewrite G.
+      destruct f as [|f']; [lia|]. reflexivity. }
+    destruct (print_iterm_hd false t) as [r E]. rewrite E in *. cbn [app] in *. rewrite EC.
+    pose proof (ihead_tok_ok t) as HI.
+    destruct (ihead_tok t); cbn in HI; try tauto; try reflexivity;
+      match goal with s : sort |- _ => destruct s end; cbn in HI; try tauto; reflexivity. }
+  (* the parenthesis alternative fails by induction *)
+  assert (P1 : f_primary (peg_formula f) f ts = Fail).
+  { destruct (lead_paren t) as [[l0 rem]|] eqn:LP.
+    - destruct (lead_paren_some t l0 rem LP) as [E L].
+      assert (Ets : ts = TLParen :: print_iterm false l0 ++ TRParen :: (rem ++ TRParen :: X)).
+      { subst ts. rewrite E. cbn [app]. rewrite <- app_assoc. reflexivity. }
+      unfold f_primary. rewrite Ets at 1.
+      rewrite IH; [exact A0|lia|].
+      unfold lead_safe in *. subst ts. rewrite E in HS. cbn [app lead_ident] in HS. rewrite <- app_assoc in HS. exact HS.
+    - pose proof (lead_paren_none t LP) as NL. unfold f_primary.
+      destruct (print_iterm_hd false t) as [r E]. subst ts. rewrite E in *. cbn [app] in *.
+      destruct (ihead_tok t); try exact A0. congruence. }
+  cbn [peg_formula]. unfold f_operand. destruct f as [|f']; [lia|]. cbn [f_prefixes]. rewrite P0, P1. reflexivity.
+Qed.
